@@ -1444,6 +1444,96 @@ fn directio_case(rng: &mut Rng, out: &mut Out, dir: &str, idx: u64) {
     let _ = std::fs::remove_file(&pb);
 }
 
+/// TTL-only renewals of an offloaded key while the flush of the previous renewal is in flight: the worker is
+/// stopped inside its first data-area write (the record of the first renewal), the key's TTL is changed again, the
+/// worker is let go, and everything is flushed.  The key was never rewritten by anybody: at rest it must read its
+/// own bytes - no StaleExtent, no missing key in a range query - and flush() must say Ok.
+fn ttl_chain_case(rng: &mut Rng, out: &mut Out, wl: &Arc<WriteLog>, dir: &str, idx: u64) {
+    use std::sync::atomic::Ordering as O;
+    feoxdb::verif::clock::unpin();
+    let blocks = rng.range(40, 80);
+    let path = format!("{}/ttlchain{}.feox", dir, idx);
+    let _ = std::fs::remove_file(&path);
+    let cache = rng.chance(1, 3);
+    let store = match FeoxStore::builder().hash_bits(6).enable_ttl(true).no_memory_limit()
+        .device_path(path.clone()).file_size(blocks * BS).enable_caching(cache).build() {
+        Ok(s) => Arc::new(s),
+        Err(_) => return,
+    };
+    let key = format!("renewed-{}", idx).into_bytes();
+    let v = pattern(0x3C, *rng.pick(&[200usize, 3000, 9000]));
+    if store.insert_with_ttl(&key, &v, 3600).is_err() || store.flush().is_err() { return; }
+    if store.verif_snapshot().iter().find(|r| r.key == key).map(|r| r.sector == 0 || r.resident).unwrap_or(true) {
+        out.count("ttl chain skipped (value still resident)");
+        return;
+    }
+    let renewals = rng.range(2, 4);
+    wl.writes.lock().unwrap().clear();
+    wl.enabled.store(true, O::SeqCst);
+    let mut bad: Option<String> = None;
+    if store.update_ttl(&key, 7200).is_err() { wl.enabled.store(false, O::SeqCst); return; }
+    for r in 1..renewals {
+        // the worker stops at its first write into the data area
+        *wl.gate.lock().unwrap() = (Some((16, blocks)), 0);
+        let st = store.clone();
+        let fl = std::thread::spawn(move || st.flush().is_ok());
+        let t0 = Instant::now();
+        let mut at_gate = false;
+        while t0.elapsed() < Duration::from_secs(3) {
+            if wl.gate.lock().unwrap().1 == 1 { at_gate = true; break; }
+            if fl.is_finished() { break; }
+            std::thread::sleep(Duration::from_millis(1));
+        }
+        if at_gate { out.count("ttl chain: renewal while the previous one is being written"); }
+        let _ = store.update_ttl(&key, 7200 + 100 * r);
+        {
+            let mut g = wl.gate.lock().unwrap();
+            g.0 = None;
+            g.1 = 2;
+            wl.gate_cv.notify_all();
+        }
+        let t1 = Instant::now();
+        while !fl.is_finished() && t1.elapsed() < WATCHDOG { std::thread::sleep(Duration::from_millis(1)); }
+        if !fl.is_finished() {
+            wl.enabled.store(false, O::SeqCst);
+            out.failures.push("C18\tflush() of a TTL-only generation did not return after the worker was released\t-".into());
+            return;
+        }
+        let _ = fl.join();
+        wl.gate.lock().unwrap().1 = 0;
+    }
+    wl.enabled.store(false, O::SeqCst);
+    // at rest
+    let st = store.clone();
+    let (tx, rx) = std::sync::mpsc::channel();
+    let fl = std::thread::spawn(move || { let a = st.flush().map_err(|e| err_name(&e).to_string()); let b = st.flush().map_err(|e| err_name(&e).to_string()); let _ = tx.send((a, b)); });
+    match rx.recv_timeout(WATCHDOG) {
+        Err(_) => { out.failures.push("C18\tflush() after TTL renewals did not return\t-".into()); return; }
+        Ok((_, second)) => {
+            let _ = fl.join();
+            if let Err(e) = second { bad = Some(format!("the key is at rest, yet flush() = Err({})", e)); }
+        }
+    }
+    match store.get(&key) {
+        Ok(got) if got == v => {}
+        Ok(got) => { bad = bad.or(Some(format!("get() returns {} bytes that are not the key's value", got.len()))); }
+        Err(e) => { bad = bad.or(Some(format!("get() = Err({}) for a key that nobody is rewriting", err_name(&e)))); }
+    }
+    if bad.is_none() && !store.range_query(b"renewed-", b"renewed-~", 10).map(|r| r.iter().any(|x| x.0 == key)).unwrap_or(false) {
+        bad = Some("range_query does not list the key".into());
+    }
+    out.count("ttl chain case");
+    report_inv(out, &store, None, "after TTL renewals racing with their own flushes");
+    if let Some(b) = bad {
+        out.failures.push(format!("C08\t{} TTL-only renewals of an offloaded key, each issued while the flush of the previous one was in flight (cache {}): {}\t-", renewals, if cache { "on" } else { "off" }, b));
+        out.failures.push(format!("C11\t{} TTL-only renewals of an offloaded key, each issued while the flush of the previous one was in flight: {}\t-", renewals, b));
+    }
+    let st = store.clone();
+    drop(store);
+    if !with_watchdog(move || drop(st)) { out.failures.push("C18\tdrop of the store after TTL renewals did not return\t-".into()); }
+    let _ = std::fs::remove_file(&path);
+}
+
 /// the live io_uring path with a device that rejects writes: the store is opened with the ring enabled (every
 /// other case forces the synchronous path for determinism), then the file-size limit of the process is lowered so
 /// that ring writes past it complete with EFBIG.  flush(), reads and drop must all return; with room again a
@@ -2135,6 +2225,9 @@ fn main() {
     }
     for i in 0..get("races", 0) {
         race_case(&mut rng, &mut out, &ctl, &wl, &args.out, i);
+    }
+    for i in 0..get("ttlchain", 0) {
+        ttl_chain_case(&mut rng, &mut out, &wl, &args.out, i);
     }
     if let Some(f) = &args.replay {
         let lines: Vec<String> = std::fs::read_to_string(f).unwrap().lines().filter(|l| l.starts_with("conc ")).map(|l| l.to_string()).collect();
